@@ -395,6 +395,9 @@ func runConc(t fataler, spec concSpec) {
 		}
 	}()
 	wg.Wait()
+	sc.mu.Lock()
+	cancelArrivals := sc.reached["db.sub.cancel"]
+	sc.mu.Unlock()
 	close(panics)
 	for msg := range panics {
 		failf("CANCEL/PANIC: %s", msg)
@@ -576,8 +579,8 @@ func runConc(t fataler, spec concSpec) {
 	if sc.reached["db.put.stored"] > 0 {
 		stats.Class("conc_reached_db.put.stored")
 	}
-	if sc.reached["db.sub.cancel"] >= 2 {
-		stats.Class("conc_several_cancels_reached_db.sub.cancel")
+	if cancelArrivals >= 2 {
+		stats.Class("conc_several_overlapping_cancels_reached_db.sub.cancel")
 	}
 	sc.mu.Unlock()
 	var nb, na int64
